@@ -1139,23 +1139,28 @@ theorem OffInv.fresh {fs fs' : FS} {d : File} (h : OffInv fs) (hd : fs'.doc = so
     omega
 
 /-- the document name is untouched or holds a file written since `fs` -/
-def DocStep (fs x : FS) : Prop :=
-  Frame .doc fs x ∧ (x.doc = fs.doc ∨ ∃ d, x.doc = some d ∧ Fresh fs.clock x d)
+structure DocStep (fs x : FS) : Prop where
+  off : x.off = fs.off
+  clock : fs.clock ≤ x.clock
+  doc : x.doc = fs.doc ∨ ∃ d, x.doc = some d ∧ Fresh fs.clock x d
 
-theorem DocStep.refl (fs : FS) : DocStep fs fs := ⟨Frame.refl _ _, Or.inl rfl⟩
+theorem DocStep.refl (fs : FS) : DocStep fs fs := ⟨rfl, Nat.le_refl _, Or.inl rfl⟩
+
+theorem Frame.docStep {fs x : FS} (h : Frame .doc fs x) (hd : x.doc = fs.doc ∨ ∃ d, x.doc = some d ∧ Fresh fs.clock x d) :
+    DocStep fs x := ⟨h.off, h.clock, hd⟩
 
 theorem DocStep.trans {a b c : FS} (h1 : DocStep a b) (h2 : DocStep b c) : DocStep a c := by
-  refine ⟨h1.1.trans h2.1, ?_⟩
-  rcases h2.2 with h | ⟨d, hd, hf⟩
-  · rcases h1.2 with h' | ⟨d, hd, hf⟩
+  refine ⟨h2.off.trans h1.off, Nat.le_trans h1.clock h2.clock, ?_⟩
+  rcases h2.doc with h | ⟨d, hd, hf⟩
+  · rcases h1.doc with h' | ⟨d, hd, hf⟩
     · exact Or.inl (h.trans h')
-    · exact Or.inr ⟨d, h.trans hd, hf.1, Nat.lt_of_lt_of_le hf.2 h2.1.clock⟩
-  · exact Or.inr ⟨d, hd, Nat.le_trans h1.1.clock hf.1, hf.2⟩
+    · exact Or.inr ⟨d, h.trans hd, hf.1, Nat.lt_of_lt_of_le hf.2 h2.clock⟩
+  · exact Or.inr ⟨d, hd, Nat.le_trans h1.clock hf.1, hf.2⟩
 
 theorem OffInv.docStep {fs x : FS} (h : OffInv fs) (hs : DocStep fs x) : OffInv x := by
-  rcases hs.2 with hd | ⟨d, hd, hf⟩
-  · exact h.unchanged hd hs.1.off hs.1.clock
-  · exact h.fresh hd hs.1.off hs.1.clock hf
+  rcases hs.doc with hd | ⟨d, hd, hf⟩
+  · exact h.unchanged hd hs.off hs.clock
+  · exact h.fresh hd hs.off hs.clock hf
 
 theorem writeAll_trace_fresh (s : Slot) (c : Cid) (c0 : Nat) (ns : List Nat) (a : FS) (f : File)
     (hf : a.get s = some f) (hfr : Fresh c0 a f) :
@@ -1177,7 +1182,7 @@ theorem writeAll_trace_fresh (s : Slot) (c : Cid) (c0 : Nat) (ns : List Nat) (a 
 theorem dcPhase_docStep (o : DcOutcome) (fs : FS) (chunks : List Nat) :
     DocStep fs (dcPhase o fs chunks).1 ∧ ∀ x ∈ (dcPhase o fs chunks).2, DocStep fs x := by
   have ⟨f1, f2⟩ := dcPhase_frame o fs chunks
-  refine ⟨⟨f1, ?_⟩, fun x hx => ⟨f2 x hx, ?_⟩⟩
+  refine ⟨f1.docStep ?_, fun x hx => (f2 x hx).docStep ?_⟩
   · rcases dcPhase_doc o fs chunks with ⟨_, h⟩ | ⟨_, d, h1, _, _, h4⟩
     · exact Or.inl h
     · exact Or.inr ⟨d, h1, h4⟩
@@ -1306,6 +1311,130 @@ theorem loop_offInv (w : World) (spec : Spec) (hm : ∀ c s, (w.dc c s).mtime = 
       · rw [hf.2]; exact hfin
     · exact i1 x hx
 
+/-! ## the offset table as memo of the line-count check (state carried from one run to the next) -/
+
+theorem prepareFileOffsetTable_err (w : World) (fs : FS) (d : File) (e : CodeErr)
+    (h : (prepareFileOffsetTable w fs d).1 = .error e) : FrameTmpOff fs (prepareFileOffsetTable w fs d).2.1 := by
+  unfold prepareFileOffsetTable at h ⊢
+  by_cases hv : offsetValid fs d
+  · simp [hv] at h
+  · simp only [hv] at h ⊢
+    by_cases hdec : w.decodeFails d.cid d.size
+    · simp only [hdec, if_true]
+      have ha := frameTmpOff_set fs (some ⟨.torn d.size d.cid 0, fs.clock⟩)
+      have ⟨hb, _⟩ := writeOff_frame d (w.tbl d.cid d.size) 0 (fs.setOffTmp (some ⟨.torn d.size d.cid 0, fs.clock⟩)).tick
+      exact ha.trans (hb.trans (frameTmpOff_set _ none))
+    · simp [hdec] at h
+
+/-- the final state of `create_file_offset_table`, whatever its outcome -/
+theorem createFileOffsetTable_final (w : World) (spec : Spec) (fs : FS) (d : File) (hd : fs.doc = some d) :
+    ((createFileOffsetTable w spec fs).res = .ok () ∧ offsetValid fs d = true ∧ (createFileOffsetTable w spec fs).fs = fs) ∨
+    ((createFileOffsetTable w spec fs).res = .ok () ∧ w.lines d.cid d.size = spec.nlines ∧
+      ∃ o, (createFileOffsetTable w spec fs).fs.off = some o ∧ o.content = .complete d.size d.cid ∧ fs.clock ≤ o.mtime) ∨
+    (∃ e, (createFileOffsetTable w spec fs).res = .error e ∧
+      ((createFileOffsetTable w spec fs).fs.off = fs.off ∨ (createFileOffsetTable w spec fs).fs.off = none)) := by
+  cases hr : (prepareFileOffsetTable w fs d).1 with
+  | error e =>
+    right; right
+    have hf := prepareFileOffsetTable_err w fs d e hr
+    exact ⟨e, by simp [createFileOffsetTable, hd, hr], Or.inl (by simp [createFileOffsetTable, hd, hr]; exact hf.off)⟩
+  | ok n =>
+    rcases prepareFileOffsetTable_ok w fs d n hr with ⟨h1, h2, h3⟩ | ⟨h1, o, h2, h3, h4, _⟩
+    · left
+      subst h1
+      exact ⟨by simp [createFileOffsetTable, hd, hr], h2, by simp [createFileOffsetTable, hd, hr, h3]⟩
+    · subst h1
+      by_cases hl : (w.lines d.cid d.size != spec.nlines) = true
+      · right; right
+        exact ⟨.linesMismatch, by simp [createFileOffsetTable, hd, hr, hl], Or.inr (by simp [createFileOffsetTable, hd, hr, hl])⟩
+      · right; left
+        have e : (createFileOffsetTable w spec fs).fs = (prepareFileOffsetTable w fs d).2.1 := by
+          simp [createFileOffsetTable, hd, hr, hl]
+        refine ⟨by simp [createFileOffsetTable, hd, hr, hl], by simpa using hl, o, by rw [e]; exact h2, h3, h4⟩
+
+/-- a table that is valid by mtime vouches for a document whose line count is the declared one -/
+def LinesMemo (w : World) (spec : Spec) (fs : FS) : Prop :=
+  ∀ o d, fs.off = some o → fs.doc = some d → d.mtime ≤ o.mtime → w.lines d.cid d.size = spec.nlines
+
+theorem LinesMemo.unchanged {w : World} {spec : Spec} {fs fs' : FS} (h : LinesMemo w spec fs) (hd : fs'.doc = fs.doc)
+    (ho : fs'.off = fs.off) : LinesMemo w spec fs' :=
+  fun o d h1 h2 h3 => h o d (ho ▸ h1) (hd ▸ h2) h3
+
+theorem LinesMemo.docStep {w : World} {spec : Spec} {fs x : FS} (h : LinesMemo w spec fs) (hi : OffInv fs) (hs : DocStep fs x) :
+    LinesMemo w spec x := by
+  rcases hs.doc with hd | ⟨d, hd, hf⟩
+  · exact h.unchanged hd hs.off
+  · intro o d' h1 h2 h3
+    rw [hd] at h2; cases h2
+    have := hi.offOld o (hs.off ▸ h1)
+    have := hf.1
+    omega
+
+/-- a *completed* run (returned or raised) keeps the memo sound, and a normal return means the line count of the
+    document on disk is the declared one (checked now, or vouched for by the memo) -/
+theorem loop_linesMemo (w : World) (spec : Spec) (hm : ∀ c s, (w.dc c s).mtime = none) (fuel : Nat) (fs : FS)
+    (plan : List Attempt) (hinv : OffInv fs) (hmemo : LinesMemo w spec fs) :
+    LinesMemo w spec (prepareLoop w spec fuel fs plan).fs ∧
+    ((prepareLoop w spec fuel fs plan).res = .done () →
+      ∃ d, (prepareLoop w spec fuel fs plan).fs.doc = some d ∧ w.lines d.cid d.size = spec.nlines) := by
+  revert hinv hmemo
+  refine prepareLoop_induct w spec
+    (fun fs _ out => OffInv fs → LinesMemo w spec fs →
+      LinesMemo w spec out.fs ∧ (out.res = .done () → ∃ d, out.fs.doc = some d ∧ w.lines d.cid d.size = spec.nlines))
+    ?_ ?_ ?_ ?_ ?_ ?_ fuel fs plan
+  · intro fs _ _ h; exact ⟨h, fun h => by simp at h⟩
+  · intro fs _ hdoc hi h
+    cases hd : fs.doc with
+    | none => simp [fileOk, hd] at hdoc
+    | some d =>
+      have hf := (createFileOffsetTable_frame w spec fs).1
+      have hdoc' : (createFileOffsetTable w spec fs).fs.doc = some d := by
+        have := hf.files .doc
+        simp only [get_doc] at this
+        rw [this]; exact hd
+      simp only [ofOut_fs]
+      rcases createFileOffsetTable_final w spec fs d hd with ⟨h1, h2, h3⟩ | ⟨h1, h2, o, h3, h4, h5⟩ | ⟨e, h1, h2⟩
+      · rw [h3]
+        refine ⟨h, fun _ => ⟨d, hd, ?_⟩⟩
+        cases hoff : fs.off with
+        | none => simp [offsetValid, hoff] at h2
+        | some o => exact h o d hoff hd (by simpa [offsetValid, hoff] using h2)
+      · refine ⟨fun o' d' g1 g2 _ => ?_, fun _ => ⟨d, hdoc', h2⟩⟩
+        rw [hdoc'] at g2; cases g2; exact h2
+      · refine ⟨fun o' d' g1 g2 g3 => ?_, fun hdone => ?_⟩
+        · rw [hdoc'] at g2; cases g2
+          rcases h2 with h2 | h2
+          · exact h o' d (h2 ▸ g1) hd g3
+          · rw [h2] at g1; cases g1
+        · rcases ofOut_res (createFileOffsetTable w spec fs) with g | ⟨e', g⟩
+          · rw [g.2] at h1; cases h1
+          · rw [g.1] at hdone; cases hdone
+  · intro fs _ e _ _ _ hi h
+    have ⟨d1, _⟩ := decompressorDecompress_docStep w spec fs hm
+    exact ⟨h.docStep hi d1, fun h => by simp at h⟩
+  · intro fs _ k _ _ _ ih hi h
+    have ⟨d1, _⟩ := decompressorDecompress_docStep w spec fs hm
+    exact ih (hi.docStep d1) (h.docStep hi d1)
+  · intro fs plan e e' _ _ hres hi h
+    have ⟨_, _, d3, _⟩ := downloaderDownload_spec spec fs (target spec) (targetSize spec) plan (target_ne_tmp spec)
+    have hf := d3 e hres
+    exact ⟨h.unchanged (by simpa using hf.other .doc (by simp)) hf.off, fun h => by simp at h⟩
+  · intro fs plan k _ _ hres ih hi h
+    have ⟨_, _, _, d4⟩ := downloaderDownload_spec spec fs (target spec) (targetSize spec) plan (target_ne_tmp spec)
+    obtain ⟨t, ht, _, hinst, hother, hoff, hclock⟩ := d4 hres
+    have hstep : DocStep fs (downloaderDownload spec fs (target spec) (targetSize spec) plan).1.fs := by
+      by_cases harch : spec.hasArchive = true
+      · have hdoc : (downloaderDownload spec fs (target spec) (targetSize spec) plan).1.fs.doc = fs.doc := by
+          have := hother .doc (by rw [(target_arch harch).1]; simp) (by simp)
+          simpa using this
+        exact ⟨hoff, hclock, Or.inl hdoc⟩
+      · obtain ⟨_, _, _, _, _, _, _, _, hfr, _⟩ := hinst
+        generalize downloaderDownload spec fs (target spec) (targetSize spec) plan = D at *
+        rw [(target_doc harch).1] at ht
+        simp only [get_doc] at ht
+        exact ⟨hoff, hclock, Or.inr ⟨t, ht, hfr⟩⟩
+    exact ih (hi.docStep hstep) (h.docStep hi hstep)
+
 /-! ## the property's own quantifier, and concrete witnesses used by `RallyProps/C14.lean` -/
 
 structure Admissible (w : World) (spec : Spec) (fs : FS) (plan : List Attempt) : Prop where
@@ -1365,6 +1494,13 @@ def wTar : World := { w0 with dc := fun _ _ => ⟨false, true, none, .pub, [100]
 def fsOtherDocWithTable : FS := ⟨some ⟨70, .other 1, 5⟩, some ⟨40, .pub, 1⟩, none, some ⟨.complete 70 (.other 1), 6⟩, none, 7⟩
 
 
+
+/-- a world in which a partial document has fewer lines than the published one -/
+def wLines : World := { w0 with lines := fun _ s => if s = 100 then 10 else 6 }
+/-- the leftover of a killed decompression, nothing declared -/
+def fsHalfDoc : FS := ⟨some ⟨50, .pub, 1⟩, none, none, none, none, 2⟩
+/-- what a kill between `os.replace` and the line-count comparison leaves -/
+def fsHalfDocPublished : FS := ⟨some ⟨50, .pub, 1⟩, none, none, some ⟨.complete 50 .pub, 3⟩, none, 5⟩
 
 theorem hyp_w0 (plan : List Attempt) : Hyp w0 specDeclared plan :=
   ⟨rfl, fun _ _ => rfl, fun _ _ _ => Or.inl rfl, fun h => by cases h⟩
